@@ -42,6 +42,7 @@ FIXED = [
  ("KF-C16-4", "C16", "f842ad6", "C16.no_absent", "an undefined global used on the taken path, and not in the capture set, evaluates to the ABSENT marker instead of raising NameError"),
  ("KF-C09-1", "C09", "468b424", "C09.driver_handlers", "finishing generators out of order / after the overlay ended leaves or re-installs handler collections in the driver's context"),
  ("KF-C09-2", "C09", "468b424", "C09.no_foreign_events", "while a generator is suspended, a call made by its driver is matched as if made inside the generator"),
+ ("KF-C09-4", "C09", "5958c50", "C09.no_foreign_events", "a generator resumed by throw() (its handler catches) calls another function before binding anything: that call is not matched as made under the generator (gen > g > a gets no event), because the generator only takes its handlers back at its next instrumented binding"),
  ("KF-C08-1", "C08", "58916a9", "C08.quiescent", "two threads activating probes on the same function race in _tooler/push/_apply: 'NoneType is not iterable' / not properly tooled / counters left over"),
  ("KF-C08-2", "C08", "13c39f3", "C08.thread_result", "a thread calling f by name while another thread's probe activation compiles f's variant runs the variant function object (its events are lost, or its self-reference global is not installed yet: NameError '_ptera__N')"),
 ]
